@@ -311,6 +311,56 @@ def run(ctx):
                                 "`%s.%s` is initialised from `%s`, the flag that belongs to its sibling field `%s`" % (inst["struct"], nm, hirq.render(lf)[:50], lf["name"]),
                                 "the user's option is applied to the wrong behaviour: files are skipped (or kept) that the options given do not exclude (or exclude)")
 
+    # extraction and verification skip the same files: the disjunction of the `continue` guards of the two loops is one predicate —
+    # evaluated over (skip_signatures, skip_encrypted, is-a-signature-file, block flags in {0, ENCRYPTED, FIX_KEY, both, COMPRESS,...})
+    R_same = ctx.rule("C07.verify-skips-what-extract-skips", "for every option pair, signature/non-signature name and flag word, extract_files_with_metadata and verify_rebuild skip the same files", floor=1)
+    from .c10 import _bval as _bv, _NoEval as _NE
+    consts_ = {k: v.get("v") for k, v in mpq.consts().items()}
+
+    def skip_pred(fn_):
+        body_ = fn_.hir["body"]
+        guards = []
+        for n_ in hirq.find(body_, "if"):
+            th = hirq.strip(n_["then"])
+            sts = (th.get("stmts") or []) + ([th["e"]] if th.get("e") is not None else []) if th.get("k") == "block" else [th]
+            if any(isinstance(x, dict) and hirq.strip(x).get("k") == "continue" for x in sts) and re.search(r"skip_", hirq.render(n_["c"])):
+                guards.append(n_["c"])
+        return guards
+    ex_f, ve_f = mpq.fns.get(F + "extract_files_with_metadata"), mpq.fns.get(F + "verify_rebuild")
+    if ex_f is None or ve_f is None or not ex_f.hir or not ve_f.hir:
+        ctx.bad(R_same, "rebuild|missing", "-", "extract_files_with_metadata / verify_rebuild not found", "anchor gone")
+    else:
+        ge, gv = skip_pred(ex_f), skip_pred(ve_f)
+        if not ge or not gv:
+            ctx.bad(R_same, "rebuild|no-skip-guards", ex_f.where, "skip guards not recognised (%d / %d)" % (len(ge), len(gv)), "shape changed")
+        else:
+            FL = {n_.split("::")[-1]: v_ for n_, v_ in consts_.items() if "BlockEntry::FLAG_" in n_ and isinstance(v_, int)}
+            words = sorted({0} | set(FL.values()) | {FL.get("FLAG_ENCRYPTED", 0x10000) | FL.get("FLAG_FIX_KEY", 0x20000), FL.get("FLAG_ENCRYPTED", 0x10000) | FL.get("FLAG_COMPRESS", 0x200)})
+
+            def ev(guards, body_, ss, se, sig_, fw):
+                lets_ = {l["pat"]["name"]: l["init"] for l in hirq.find(body_, "let") if l["pat"].get("k") == "bind" and l.get("init") is not None}
+                env = {"__bleaf__": (lambda r_: ss if r_.endswith("skip_signatures") else se if r_.endswith("skip_encrypted") else sig_ if "is_signature_file" in r_ else None),
+                       "__leaf__": (lambda r_: fw if r_.endswith(".flags") else FL.get(r_))}
+                return any(_bv(g_, env, lets_) for g_ in guards)
+            try:
+                diff = None
+                n_ev = 0
+                for ss in (False, True):
+                    for se in (False, True):
+                        for sig_ in (False, True):
+                            for fw in words:
+                                n_ev += 1
+                                a_, b_ = ev(ge, ex_f.hir["body"], ss, se, sig_, fw), ev(gv, ve_f.hir["body"], ss, se, sig_, fw)
+                                if a_ != b_ and diff is None:
+                                    diff = (ss, se, sig_, fw, a_, b_)
+                if diff:
+                    ctx.bad(R_same, "rebuild|skip-predicates-differ", ve_f.where, "with skip_signatures=%s skip_encrypted=%s, %s name and flags 0x%X extraction %s the file but verification %s it" % (diff[0], diff[1], "a signature" if diff[2] else "an ordinary", diff[3], "skips" if diff[4] else "keeps", "skips" if diff[5] else "expects"),
+                            "a correct rebuild is reported as a count / content mismatch (or a wrong one passes) whenever such a file is in the source: the outcome depends on whether verify is on")
+                else:
+                    ctx.ok(R_same, {"evaluations": n_ev, "extract_guards": [hirq.render(g_)[:60] for g_ in ge]})
+            except _NE as e:
+                ctx.bad(R_same, "rebuild|skip-not-evaluable", ex_f.where, "skip guards not evaluable: %s" % e, "shape changed")
+
     sig = mpq.fns.get(F + "is_signature_file")
     if sig is not None and sig.hir:
         lits = sorted({hirq.lit_str(x) or x["v"].get("str") for x in hirq.walk(sig.hir["body"]) if x.get("k") == "lit" and "str" in x["v"]})
